@@ -6,6 +6,10 @@ from vlib import run_tlc, require_ok, Graph, Verdict, Internal, log
 UDP_REPLIES = {"ok30", "ok3600", "okneg", "fail", "malformed"}
 
 
+def crash_first(st):
+    return [x for x in st.splitlines() if x.startswith(("panic", "fatal"))][:1]
+
+
 def run(prop, tier, seed, replay=None):
     v = Verdict(prop, tier, seed)
     rng = random.Random(seed)
@@ -54,6 +58,7 @@ def run(prop, tier, seed, replay=None):
         for i, sc in enumerate(scen):
             sc["id"] = i
     vh = vlib.build_harness()
+    allscen, scen = scen, [x for x in scen if x.get("kind") != "bigreply"]
     wd = vlib.scratch("trk-")
     sf, rf = os.path.join(wd, "scen.ndjson"), os.path.join(wd, "res.ndjson")
     with open(sf, "w") as f:
@@ -82,6 +87,32 @@ def run(prop, tier, seed, replay=None):
         steps += o.get("steps_done", 0)
         if sc["id"] % 301 == 11:
             v.sample({"kind": sc["kind"], "steps": [st["a"] for st in sc.get("steps", [])][:10], "hist": sc.get("hist")})
+    # at the level of the torrent: a reply with more peers than the event queue has room for, delivered while the loop is busy
+    if not replay or allscen[0].get("kind") == "bigreply":
+        big = [{"kind": "bigreply", "npeers": n, "id": 9000 + k} for k, n in enumerate((40, 700, 1500))] if not replay else allscen
+        wd2 = vlib.scratch("trkbig-")
+        sf2, rf2 = os.path.join(wd2, "c.ndjson"), os.path.join(wd2, "r.ndjson")
+        with open(sf2, "w") as f:
+            for c in big:
+                f.write(json.dumps(c) + "\n")
+        out2, _ = vlib.run_harness(vh, ["privacy", "-in", sf2, "-out", rf2, "-parallel", "3", "-timeout", "120"], timeout=1200)
+        log(out2.strip())
+        for line in open(rf2):
+            res = json.loads(line)
+            c = big[res["index"]]
+            if res.get("crash") or res.get("hang"):
+                if res.get("hang"):
+                    raise Internal("bigreply case hung: %s" % res.get("stderr", "")[-300:])
+                v.violation("tracker-crash", "the process crashed on a tracker reply of %d peers: %s" % (c["npeers"], crash_first(res.get("stderr", ""))), c)
+                continue
+            o = res["out"]
+            if o.get("note"):
+                raise Internal("bigreply: %s" % o["note"])
+            for vi in o.get("violations") or []:
+                v.violation(vi["key"], vi["what"], c)
+            for nc in o.get("nonconf") or []:
+                v.warn("nonconformance: bigreply: " + nc)
+        v.cov["big_replies"] = {"cases": len(big), "rule": "tracker replies of 40 / 700 / 1500 peers delivered to a running torrent whose event loop is busy; GetKnowns must hold exactly the encoded peers"}
     v.cov["traces_validated_against_impl"] = len(scen)
     v.cov["evaluations"] = len(scen)
     v.cov["distinct_nontrivial"] = len({json.dumps([sc.get("hist"), [st["a"] for st in sc.get("steps", [])], sc["kind"]], sort_keys=True) for sc in scen})
